@@ -1,6 +1,7 @@
 package main
 
 import (
+	"regexp"
 	"encoding/json"
 	"fmt"
 	"go/ast"
@@ -69,11 +70,24 @@ func __snap[T any](f func() T) (r T) {
 // __guard evaluates a specification condition; a panic counts as false.
 func __guard(f func() bool) (r bool) {
 	defer func() {
-		if recover() != nil {
+		if e := recover(); e != nil {
 			r = false
+			if re, ok := e.(interface{ Error() string }); ok && __rac_contains(re.Error(), "comparing uncomparable") {
+				// == on interface values holding slices/maps has no run-time meaning
+				// (the specification compares structurally): undecided, not a failure
+				r = true
+			}
 		}
 	}()
 	return f()
+}
+func __rac_contains(s, sub string) bool {
+	for i := 0; i+len(sub) <= len(s); i++ {
+		if s[i:i+len(sub)] == sub {
+			return true
+		}
+	}
+	return false
 }
 func __imp(a, b bool) bool                       { return !a || b }
 func __iff(a, b bool) bool                       { return a == b }
@@ -86,6 +100,17 @@ func __disjoint(a, b any) bool                   { return true }
 func __ghost(name string) int                    { return 0 }
 func __lastsent[T any](ch chan T) (r T)          { return }
 func __sentcount[T any](ch chan T) int           { return 0 }
+func __haskey[K comparable, V any](m map[K]V, k K) bool { _, ok := m[k]; return ok }
+func __visited(k any) bool                       { return true }
+func __forallcells[T any](f func(T) bool) bool   { return true }
+func __forallkeys[K comparable, V any](m map[K]V, f func(K) bool) bool {
+	for k := range m {
+		if !f(k) {
+			return false
+		}
+	}
+	return true
+}
 func __forall(lo, hi int, f func(int) bool) bool {
 	for i := lo; i < hi; i++ {
 		if !f(i) {
@@ -104,6 +129,12 @@ func __exists(lo, hi int, f func(int) bool) bool {
 }
 `
 }
+
+// racExecutable: the clause uses no specification-only builtin (ghost state,
+// allocation freshness, aliasing predicates), which have no run-time meaning.
+var racGhostRe = regexp.MustCompile(`\b(sentcount|lastsent|ghost|fresh|samefn|sameslice|disjoint|entry|rangeindex|visited)\(|\bin allocated\b`)
+
+func racExecutable(text string) bool { return !racGhostRe.MatchString(text) }
 
 // hoistOld replaces old(E) sub-expressions by fresh variables and returns
 // the rewritten text and the hoisted (name, expr) pairs.
@@ -238,7 +269,7 @@ func buildOverlayRAC(root, pkgDir string) (map[string][]byte, error) {
 			var checks strings.Builder
 			for _, r := range c.Ensures {
 				rt, ok := substAll(r.Text, fd, lastErr, res0)
-				if !ok {
+				if !ok || !racExecutable(rt) {
 					continue
 				}
 				txt, hoists := hoistOld(rt, &counter)
@@ -256,6 +287,15 @@ func buildOverlayRAC(root, pkgDir string) (map[string][]byte, error) {
 				fmt.Fprintf(&sb, " defer func() { if r := recover(); r != nil { panic(r) }; if __racPre {%s } }();", checks.String())
 			}
 			ins = append(ins, insertion{off(fd.Body.Lbrace) + 1, sb.String()})
+			for _, a := range c.Asserts {
+				if at := stmtContaining(fd.Body, src, off, a.After); at != nil && !strings.Contains(a.Text, "old(") && racExecutable(a.Text) {
+					if a.Before {
+						ins = append(ins, insertion{off(at.Pos()), fmt.Sprintf("if __racPre && !__guard(func() bool { return %s }) { __rac_fail(%q) }; ", specToGo(a.Text, resultName), full+"#assert:"+a.Label)})
+					} else {
+						ins = append(ins, insertion{off(at.End()), fmt.Sprintf("; if __racPre && !__guard(func() bool { return %s }) { __rac_fail(%q) };", specToGo(a.Text, resultName), full+"#assert:"+a.Label)})
+					}
+				}
+			}
 			loops := collectLoops(fd.Body)
 			if len(c.LoopInv) > 0 {
 				for n, l := range loops {
@@ -276,7 +316,7 @@ func buildOverlayRAC(root, pkgDir string) (map[string][]byte, error) {
 				var lb strings.Builder
 				for _, r := range lc.Invariants {
 					txt, hoists := hoistOld(r.Text, &counter)
-					if len(hoists) > 0 || strings.Contains(txt, "entry(") || strings.Contains(txt, "rangeindex(") || strings.Contains(txt, "ghost(") {
+					if len(hoists) > 0 || strings.Contains(txt, "entry(") || strings.Contains(txt, "rangeindex(") || strings.Contains(txt, "ghost(") || strings.Contains(txt, "visited(") {
 						continue // invariants over old()/entry() are not checked at run time
 					}
 					fmt.Fprintf(&lb, " if __racPre && !__guard(func() bool { return %s }) { __rac_fail(%q) };", specToGo(txt, resultName), fmt.Sprintf("%s#inv:loop%d.%s", full, n, r.Label))
@@ -446,14 +486,17 @@ func TestHvcReplay(t *testing.T) {
 		hvcStage("analyze", func() {
 			analyzed, diags, syn := Analyze(InputProgram{ProgramText: text, Filename: "replay"}, TestingAnalyzerScopeAdditions(), TestingAnalyzerHost{}, true)
 			if len(syn) > 0 {
+				fmt.Fprintf(os.Stderr, "INFO-REJECTED syntax %s\n", syn[0].Message)
 				return
 			}
 			for _, d := range diags {
 				if d.Level == diagnostic.DiagnosticLevelError {
+					fmt.Fprintf(os.Stderr, "INFO-REJECTED %s\n", d.Message)
 					return
 				}
 			}
 			accepted = true
+			fmt.Fprintf(os.Stderr, "INFO-ACCEPTED\n")
 			if !strings.Contains(stages, "run") {
 				return
 			}
